@@ -323,6 +323,9 @@ func parsePath(s string) []int {
 func c20Value(s string) cty.Value {
 	switch {
 	case strings.HasPrefix(s, "n"):
+		if v, err := cty.ParseNumberVal(s[1:]); err == nil { // any size, negative too
+			return v
+		}
 		n, _ := strconv.Atoi(s[1:])
 		return cty.NumberIntVal(int64(n))
 	case s == "t":
@@ -504,7 +507,7 @@ func runC20(c *Ctx) {
 			}
 			switch r.Intn(8) {
 			case 0, 1, 2:
-				v := gen.Pick(r, []string{"n7", "n0", "t", "f", "s" + hx([]byte("new value")), "s" + hx([]byte("q\"uote")), "s-", "l" + hx([]byte("a")) + "+" + hx([]byte("b")), "l"})
+				v := gen.Pick(r, []string{"n7", "n0", "n-3", "n9223372036854775807", "n9223372036854775808", "n18446744073709551615", "n-9223372036854775809", "n123456789012345678901234567890", "t", "f", "s" + hx([]byte("new value")), "s" + hx([]byte("q\"uote")), "s-", "l" + hx([]byte("a")) + "+" + hx([]byte("b")), "l"})
 				ops = append(ops, "set:"+path+":"+gen.Pick(r, names)+":"+v)
 				c.Count("op.set")
 			case 3, 4:
